@@ -1,7 +1,7 @@
 (* C03 — coefficient-wise modular operations are exact for every operand and every modulus of the tables.
    Statements only.  The models (Functors.v, ScalarOps.v) carry the C++ machine-word wrap explicitly. *)
 From Coq Require Import ZArith List.
-From NTT Require Import Functors ScalarOps ScalarClosed Simd.
+From NTT Require Import Functors ScalarOps ScalarClosed Simd Promote16.
 From NTT.gen Require Import Params.
 Local Open Scope Z_scope.
 
@@ -37,3 +37,19 @@ Print Assumptions C03_addmod_vector_lanes.
 (* non-vacuity: a real row satisfies the row hypothesis and the functors compute on it *)
 Example C03_nonvacuous : Hrow 32 1073479681 /\ addmod 32 1073479681 1073479680 1 = 0 /\ mulmod_gen 32 1073479681 1073479680 1073479680 = 1.
 Proof. unfold Hrow. vm_compute. repeat split; congruence. Qed.
+
+(* 16-bit limbs as C++ evaluates them: operands promoted to 32-bit signed int (overflow there would be undefined behaviour), unsigned
+   32-bit arithmetic under the casts, truncation on the store.  No signed overflow ever occurs and the result is the word of the
+   limb-width model, for EVERY 16-bit x (canonical or not) and canonical y / twiddle; same for the scalar butterfly on all operands *)
+Theorem C03_u16_promotion_add : forall p x y, 0 <= p < 2 ^ 16 -> 0 <= x < 2 ^ 16 -> 0 <= y < 2 ^ 16 ->
+  Promote16.addmod16 p x y = Some (addmod 16 p x y) /\ Promote16.submod16 p x y = Some (submod 16 p x y).
+Proof. exact Promote16.addsub16_ok. Qed.
+Print Assumptions C03_u16_promotion_add.
+Theorem C03_u16_promotion_mulshoup : forall p x y, Hrow 16 p -> 0 <= x < 2 ^ 16 -> 0 <= y < p ->
+  Promote16.mulmod_shoup16 p x y ((y * 2 ^ 16) / p) = Some (mulmod_shoup 16 p x y ((y * 2 ^ 16) / p)).
+Proof. exact Promote16.mulmod_shoup16_ok. Qed.
+Print Assumptions C03_u16_promotion_mulshoup.
+Theorem C03_u16_promotion_butterfly : forall p wt a b, Hrow 16 p -> 0 <= wt < p -> 0 <= a < 2 ^ 16 -> 0 <= b < 2 ^ 16 ->
+  Promote16.bfly16 p wt ((wt * 2 ^ 16) / p) a b = Some (bfly_lazy 16 p wt ((wt * 2 ^ 16) / p) a b).
+Proof. exact Promote16.bfly16_ok. Qed.
+Print Assumptions C03_u16_promotion_butterfly.
